@@ -57,6 +57,23 @@ pub fn run(ctx: &mut Ctx) {
             let j = crng.below(i as u64 + 1) as usize;
             keys.swap(i, j);
         }
+        // insertion orders a sort has nothing (or everything) to do about: already in key order, reversed,
+        // in key order but for one late entry
+        match case % 16 {
+            5 | 6 => keys.sort(),
+            13 => {
+                keys.sort();
+                keys.reverse();
+            }
+            14 => {
+                keys.sort();
+                if keys.len() > 2 {
+                    let k0 = keys.remove(0);
+                    keys.push(k0);
+                }
+            }
+            _ => {}
+        }
         let mut entries = vec![];
         for k in 0..ne {
             let target = match graph {
